@@ -227,6 +227,14 @@ R["C19"] = {"harnesses": [
     "assumptions": ["staged legacy module as for C18", "CreateMergePatch numbers concrete plain integers (float64-exact)", "Equal on object/array roots without escapes (property)"],
     "outside_bound": ["families as for C02/C03/C06/C07 at their quick bounds"]}
 
+R["C20"] = {"harnesses": [H("H_C20_Main", [{"maxfiles": 2}], [{"maxfiles": 3}], ["C20/all-good", "C20/some-bad", "C20/end"],
+    "the real main() of v5/cmd/json-patch with 0..maxfiles -p files, each one of: patch that applies (3 variants with symbolic leaves), patch that fails to apply (2), malformed (3), missing file, directory - in every order; stdin a document with two symbolic string bytes (any printable ASCII, so % is included); expected output = left fold of the library's own DecodePatch+Apply",
+    target="cmd")],
+    "anchors": ["cmd/json-patch.main", "(*github.com/evanphx/json-patch/v5/cmd/json-patch.FileFlag).UnmarshalFlag"],
+    "assumptions": ["environment stubs (harness/incmd): go-flags' own argument parsing is replaced by a stub that calls the real FileFlag.UnmarshalFlag for each -p value in order; os.Stat, filepath.Abs, ReadFile, ReadAll(os.Stdin) answer from the scenario; log.Fatalf records stderr, sets exit status 1 and ends the run; fmt.Printf implements %s and %% and renders a verb without operand as Go does",
+                    "every reported violation and a sample of passing paths are re-run with the REAL binary (go build ./cmd/json-patch from the working tree) on real files"],
+    "outside_bound": ["more than 3 files", "go-flags' argument parsing, the operating system, process exit plumbing", "the root cmd/json-patch (identical source apart from the import path)"]}
+
 if __name__ == "__main__":
     json.dump(R, open(os.path.join(V, "harness", "registry.json"), "w"), indent=1)
     print("registry:", sorted(R))
